@@ -403,6 +403,7 @@ class Domain:
         self.boundary = boundary
         self.grid = grid
         self.pairing = pairing
+        self.max_state_index = -1  # largest index of a state of the domain
 
     def outside(self, x: Coordinates) -> bool:
         y = np.atleast_1d(x)
@@ -418,6 +419,7 @@ class Domain:
             res = deque()
             res.appendleft(left_index)
             res.appendleft(right_index)
+            self.max_state_index = max(left_index, right_index)
             return res
 
         # exhaust all possible states and
@@ -455,6 +457,10 @@ class Domain:
                 all_states.append(pairing.pair(state_increment))
 
             if not all(outside_states):
+                self.max_state_index = max(
+                    self.max_state_index,
+                    max(x for x, y in zip(all_states, outside_states) if not y),
+                )
                 frontier_left_index = next(
                     x for x, y in zip(all_states, outside_states) if not y
                 )
@@ -483,7 +489,9 @@ class StatesManager:
         """
         frontier_states = domain.compute_total_number_of_states_and_frontier()
         self.frontier_states_indices = frontier_states
-        self.max_frontier_indices = max(frontier_states)
+        # the enumeration is exhausted once the largest index of a state of the domain has been passed; the frontier
+        # holds the ends of the lines parallel to the last axis, which need not carry the largest index
+        self.max_frontier_indices = max(max(frontier_states), domain.max_state_index)
         self.domain = domain
         self.origin_coordinates = grid.origin_coordinate
         self.grid = grid
@@ -521,7 +529,7 @@ class StatesManager:
 
         xx = max(x, self._last_projected_index + 1)
 
-        while xx < self.max_frontier_indices:
+        while xx <= self.max_frontier_indices:
             if not is_outside(state_increment := project(xx)):
                 self._last_projected_index = xx
                 return state_increment, False
